@@ -19,6 +19,7 @@ import (
 	"fmt"
 	"image/jpeg"
 	"io"
+	"math"
 	"math/rand"
 	"os"
 	"testing"
@@ -1074,6 +1075,7 @@ type dctFail struct {
 	At     int     `json:"at"`
 	Diff   int     `json:"diff"`
 	Key    string  `json:"key"`
+	Class  string  `json:"class"`
 	Extra  float64 `json:"-"`
 }
 
@@ -1100,8 +1102,13 @@ func cmdDCTOne() {
 			worst, at = d, i
 		}
 	}
+	ef, ei := dctFaithfulness(&p, &c, &back)
+	cls := "impl-only"
+	if ef <= 0.5+dctSlack && ei <= 0.5+dctSlack {
+		cls = "inherent"
+	}
 	json.NewEncoder(os.Stdout).Encode(map[string]interface{}{"pixels": px, "forward": co, "valid": c.IsValid(), "back": bk,
-		"max_diff": worst, "at": at})
+		"max_diff": worst, "at": at, "class": cls, "forward_error": ef, "inverse_error": ei})
 }
 
 func cmdDCT() {
@@ -1114,7 +1121,10 @@ func cmdDCT() {
 	maxAbsDC, maxAbsAC := 0, 0
 	diffHist := map[int]int{}
 	fails := []dctFail{}
-	seenDiff := map[int]bool{}
+	seenDiff2 := map[string]bool{}
+	maxEF, maxEI := 0.0, 0.0
+	const faithEvery = 4
+	offByClass := map[string]int{"inherent": 0, "impl-only": 0}
 	byGen := map[string]int{}
 	check := func(gen string, p *lowleveljpeg.BlockU8) {
 		total++
@@ -1146,6 +1156,15 @@ func cmdDCT() {
 				fails = append(fails, mk("forward DCT is not a valid block", -1, 0))
 			}
 		}
+		if total%faithEvery == 0 {
+			ef, ei := dctFaithfulness(p, &c, &back)
+			if ef > maxEF {
+				maxEF = ef
+			}
+			if ei > maxEI {
+				maxEI = ei
+			}
+		}
 		worst, at := 0, -1
 		for i := 0; i < 64; i++ {
 			d := abs(int(back[i]) - int(p[i]))
@@ -1159,9 +1178,24 @@ func cmdDCT() {
 		}
 		if worst > 1 {
 			off++
-			if !seenDiff[worst] {
-				seenDiff[worst] = true
-				fails = append(fails, mk("inverse DCT of the forward DCT differs by more than one", at, worst))
+			// Classify by the exact real-valued DCT-II: ef = how far the forward coefficients are from the exact
+			// ones, ei = how far the returned pixels are from the exact inverse of those (integer) coefficients.
+			// An implementation that rounds to nearest has ef, ei <= 0.5 (+ fixed-point slack).  If it does and
+			// the round trip is still off by two, no integer-coefficient DCT pair could do better on this block
+			// up to rounding ties (the known finding, "inherent"); otherwise the implementation's arithmetic is
+			// responsible ("impl-only").
+			ef, ei := dctFaithfulness(p, &c, &back)
+			cls := "impl-only"
+			if ef <= 0.5+dctSlack && ei <= 0.5+dctSlack {
+				cls = "inherent"
+			}
+			offByClass[cls]++
+			k := fmt.Sprintf("%d:%s", worst, cls)
+			if !seenDiff2[k] {
+				seenDiff2[k] = true
+				f := mk("inverse DCT of the forward DCT differs by more than one", at, worst)
+				f.Class = cls
+				fails = append(fails, f)
 			}
 		}
 	}
@@ -1262,5 +1296,83 @@ func cmdDCT() {
 	}
 	json.NewEncoder(os.Stdout).Encode(map[string]interface{}{
 		"blocks": total, "by_gen": byGen, "invalid_forward": invalid, "roundtrip_off_by_more_than_one": off,
-		"max_pixel_diff": maxDiff, "max_abs_dc": maxAbsDC, "max_abs_ac": maxAbsAC, "worst_diff_histogram": diffHist, "failures": fails})
+		"max_pixel_diff": maxDiff, "max_abs_dc": maxAbsDC, "max_abs_ac": maxAbsAC, "worst_diff_histogram": diffHist, "off_by_class": offByClass,
+		"max_forward_error": maxEF, "max_inverse_error": maxEI, "slack": dctSlack, "failures": fails})
+}
+
+// dctSlack is the tolerance, beyond the 0.5 of round-to-nearest, granted to the implementation's fixed-point
+// arithmetic when a failing block is classified (measured on the unchanged tree: see the evidence).
+const dctSlack = 0.02
+
+var dctCos = func() (cm [8][8]float64) {
+	for u := 0; u < 8; u++ {
+		a := math.Sqrt(2.0 / 8.0)
+		if u == 0 {
+			a = math.Sqrt(1.0 / 8.0)
+		}
+		for x := 0; x < 8; x++ {
+			cm[u][x] = a * math.Cos(float64((2*x+1)*u)*math.Pi/16)
+		}
+	}
+	return
+}()
+
+// dctFaithfulness returns (ef, ei): the largest distance of a coefficient in c from the exact DCT-II of p, and the
+// largest distance of a pixel in back from the exact inverse DCT of c (clamped to 0..255).
+func dctFaithfulness(p *lowleveljpeg.BlockU8, c *lowleveljpeg.BlockI16, back *lowleveljpeg.BlockU8) (float64, float64) {
+	cm := &dctCos
+	var in, tmp [8][8]float64
+	for i := 0; i < 64; i++ {
+		in[i/8][i%8] = float64(p[i]) - 128
+	}
+	// the block is stored row-major, index 8*y + x; coefficient (v, u) = sum_y sum_x C[v][y] C[u][x] in[y][x]
+	for v := 0; v < 8; v++ {
+		for x := 0; x < 8; x++ {
+			s := 0.0
+			for y := 0; y < 8; y++ {
+				s += cm[v][y] * in[y][x]
+			}
+			tmp[v][x] = s
+		}
+	}
+	ef := 0.0
+	for v := 0; v < 8; v++ {
+		for u := 0; u < 8; u++ {
+			s := 0.0
+			for x := 0; x < 8; x++ {
+				s += tmp[v][x] * cm[u][x]
+			}
+			if d := math.Abs(s - float64(c[8*v+u])); d > ef {
+				ef = d
+			}
+		}
+	}
+	for y := 0; y < 8; y++ {
+		for u := 0; u < 8; u++ {
+			s := 0.0
+			for v := 0; v < 8; v++ {
+				s += cm[v][y] * float64(c[8*v+u])
+			}
+			tmp[y][u] = s
+		}
+	}
+	ei := 0.0
+	for y := 0; y < 8; y++ {
+		for x := 0; x < 8; x++ {
+			s := 128.0
+			for u := 0; u < 8; u++ {
+				s += tmp[y][u] * cm[u][x]
+			}
+			if s < 0 {
+				s = 0
+			}
+			if s > 255 {
+				s = 255
+			}
+			if d := math.Abs(s - float64(back[8*y+x])); d > ei {
+				ei = d
+			}
+		}
+	}
+	return ef, ei
 }
